@@ -48,7 +48,7 @@ impl Property for C15 {
     fn cases(&self, tier: Tier) -> u32 {
         match tier {
             Tier::Quick => 40_000,
-            Tier::Thorough => 150_000,
+            Tier::Thorough => 1_000_000,
         }
     }
 
